@@ -59,6 +59,13 @@ def paths(case):
     return dest_arg, dest_abs, part_abs
 
 
+def name_too_long(case):
+    """Does the destination or the part file have a name longer than NAME_MAX (255 bytes)?  Then the kernel
+    refuses the save (ENAMETOOLONG) unless the implementation picks a shorter part name."""
+    _a, dest_abs, part_abs = paths(case)
+    return any(len(p.rsplit('/', 1)[1].encode('utf-8')) > 255 for p in (dest_abs, part_abs))
+
+
 def new_content(case):
     """Bytes the destination must hold after a completed save (writes before a raise)."""
     out = bytearray()
@@ -353,6 +360,12 @@ def gen_workload(rng, faults=False):
                 # the stale part 'file' is a symbolic link to somebody's file
                 case['part_initial'] = {'symlink': 'victim.txt', 'data': b'VICTIM DATA'.hex(), 'mode': 0o640}
                 case.pop('reuse', None)
+    if rng.random() < 0.03 and not case.get('part_file'):
+        # file names at the edge of NAME_MAX: 250 still leaves room for '.part', 251-255 do not
+        n = rng.choice([250, 251, 254, 255])
+        case['dest_name'] = 'n' * (n - 4) + '.txt'
+        if name_too_long(case):
+            case.pop('part_initial', None)      # nobody can have created a file of that name
     if rng.random() < 0.15:
         case['entry'] = 'class'     # AtomicSaver(...) instead of atomic_save(...)
     if faults and rng.random() < 0.25:
